@@ -1,7 +1,7 @@
 """Absolutely positioned boxes management."""
 
 from ..formatting_structure import boxes
-from .min_max import handle_min_max_width
+from .min_max import handle_min_max_height, handle_min_max_width
 from .percent import resolve_percentages, resolve_position_percentages
 from .preferred import shrink_to_fit
 from .replaced import inline_replaced_box_width_height
@@ -121,6 +121,7 @@ def absolute_width(box, context, cb_x, cb_y, cb_width, cb_height):
     return translate_box_width, translate_x
 
 
+@handle_min_max_height
 def absolute_height(box, context, cb_x, cb_y, cb_width, cb_height):
     # https://www.w3.org/TR/CSS2/visudet.html#abs-non-replaced-height
     paddings_borders = (
